@@ -17,6 +17,7 @@ type scriptedReader struct {
 	cut     int  // bytes available before EOF (-1 = all)
 	fault   int  // offset at which a non-EOF error is returned (-1 = never)
 	withEOF bool // last bytes are returned together with io.EOF
+	withErr bool // last bytes before a fault are returned together with the fault
 	reads   [][3]int
 	maxLog  int
 	past    bool // a Read was served after EOF/fault was already returned
@@ -84,6 +85,11 @@ func (r *scriptedReader) Read(p []byte) (int, error) {
 		r.ended = true
 		r.log(req, n, rEOF)
 		return n, io.EOF
+	}
+	if r.withErr && r.pos == end && r.fault >= 0 && r.pos >= r.fault {
+		r.ended = true
+		r.log(req, n, rFault)
+		return n, errFault
 	}
 	r.log(req, n, rOK)
 	return n, nil
